@@ -274,8 +274,14 @@ pub open spec fn cond_state(s: State) -> State { State { is_last_must_be_ret: fa
 /// state of the two arms of a ternary: additionally an explicit `return` in an arm is removed
 pub open spec fn ternary_state(s: State) -> State { State { is_last_must_be_ret: false, is_remove_last_ret: true, must_assign_to: None, ..s } }
 
-pub open spec fn ternary_ok(then: ASTTy, el: ASTTy) -> bool {
-    !(then.node is Block) && !(then.node is Raise) && !(el.node is Block) && !(el.node is Raise)
+/// C01: an arm may become an operand of a Python conditional expression only if it is an expression; an explicit
+/// `return e` may be folded to `e` only if the conditional expression itself is what the function returns
+/// (`return (a if c else b)` means the same as `if c: return a else: return b`) — never when it is assigned
+pub open spec fn ternary_arm_ok(arm: ASTTy, returned: bool) -> bool {
+    !(arm.node is Block) && !(arm.node is Raise) && ((arm.node is Return || arm.node is ReturnEmpty) ==> returned)
+}
+pub open spec fn ternary_ok(then: ASTTy, el: ASTTy, returned: bool) -> bool {
+    ternary_arm_ok(then, returned) && ternary_arm_ok(el, returned)
 }
 
 pub open spec fn well_formed_case(c: ASTTy) -> bool {
@@ -300,7 +306,7 @@ pub open spec fn cf_post(ast: ASTTy, state: State, ctx: Context, c: Core) -> boo
     match ast.node {
         NodeTy::IfElse { cond, then, el } => match el {
             Some(e) =>
-                if ast.ty is Some && ternary_ok(*then, *e) {
+                if ast.ty is Some && ternary_ok(*then, *e, state.is_last_must_be_ret) {
                     c matches Core::Ternary { cond: c2, then: t2, el: e2 }
                     && Some(*c2) == conv(*cond, cond_state(state), ctx)
                     && Some(*t2) == conv(*then, ternary_state(state), ctx) && Some(*e2) == conv(*e, ternary_state(state), ctx)
@@ -330,8 +336,11 @@ pub open spec fn cf_post(ast: ASTTy, state: State, ctx: Context, c: Core) -> boo
     }
 }
 
+//@@ FN src/generate/convert/control_flow.rs | free | is_valid_ternary_arm
+    ensures r == ternary_arm_ok(*arm, returned),                                 //# ternary_arm_is_an_expression_and_return_only_if_returned [C01]
+//@@ END
 //@@ FN src/generate/convert/control_flow.rs | free | is_valid_in_ternary
-    ensures r == ternary_ok(*then, *el),                                         //# ternary_only_for_simple_arms [C01]
+    ensures r == ternary_ok(*then, *el, returned),                               //# ternary_only_for_simple_arms [C01]
 //@@ END
 
 #[verifier::loop_isolation(false)]
